@@ -225,6 +225,12 @@ def run_case(case, scenarios, full=False):
         one_run("reused_1", m)
         if full:
             one_run("reused_2", m)
+        # repetitions with ONE configuration dictionary (a tile loop passes the same dict every time): whatever a run
+        # writes into it must not change the next run
+        shared = copy.deepcopy(cfg0)
+        one_run("reused_samecfg_1", PandoraMachine(), shared)
+        one_run("reused_samecfg_2", PandoraMachine(), shared)
+        one_run("reused_samecfg_3", m, shared)
         # the same machine checks the pipeline (both orders of use occur in main and in the API), then runs
         try:
             checked = check_pipeline_section(copy.deepcopy(cfg0), meta(L), meta(R), m)
